@@ -832,8 +832,25 @@ func (r *runner) simple(ctx context.Context, s Step, path string, res *StepResul
 	case "db_locks":
 		res.Locks = append([]string{}, r.srv.HeldLocks()...)
 		return nil
+	case "db_hook":
+		// run Steps (background context) right after the database call selected by Fault (action forced to "call")
+		if s.Fault != nil {
+			body := s.Steps
+			r.srv.OnCall(func() {
+				var sub []StepResult
+				r.runSteps(context.Background(), body, "dbhook"+path, &sub)
+				r.mu.Lock()
+				r.tr.HookResults = append(r.tr.HookResults, sub...)
+				r.mu.Unlock()
+			})
+			f := *s.Fault
+			f.Action = "call"
+			r.srv.AddFault(f)
+		}
+		return nil
 	case "db_fault_clear":
 		r.srv.ClearFaults()
+		r.srv.OnCall(nil)
 		return nil
 	case "db_fail_connect":
 		r.srv.FailConnect(s.N)
